@@ -12,6 +12,7 @@
 package main
 
 import (
+	"bytes"
 	"encoding/binary"
 	"encoding/json"
 	"errors"
@@ -67,6 +68,7 @@ type scase struct {
 	End      string   `json:"end"`      // "" | eof | reset: both directions end with a final chunk handed out together with that error
 	TailI    int      `json:"tail_i"`   // bytes of the stream towards I that come in the same Read as the error
 	TailR    int      `json:"tail_r"`
+	Timeouts bool     `json:"timeouts"` // read-deadline timeouts (peer silent) in between, the stream must go on afterwards
 	Batches  int      `json:"batches,omitempty"` // concurrent family
 	Pairs    int      `json:"pairs,omitempty"`
 }
@@ -260,6 +262,9 @@ func (c *scase) deliverHS(e *ep, data []byte, sizes []int, eofAfter bool) {
 			fmt.Sprintf("role %s after %d bytes (eof=%v): real %s, model %s", e.role, len(data), eofAfter, e.state, ms))
 	}
 	if e.state == "done" {
+		// from now on virtual time: a Read that would block while ANY read deadline is armed times out at
+		// once ("the peer stays silent for longer than every deadline"); the transport must not have one armed
+		e.sc.FireDeadlines = true
 		e.rd = &obfskit.Reader{SC: e.sc, Conn: e.conn, Max: c.ReadMax}
 		ev := e.sc.EventsCopy()
 		last := ""
@@ -393,6 +398,56 @@ func (c *scase) checkDue(to, from *ep, coalesced bool) {
 	c.violate(sig, "impl-oracle",
 		fmt.Sprintf("%s %s wrote %d bytes which reached real %s's socket in %s; real %s is blocked in Read with only %d bytes delivered (%d bytes still queued on the socket) and the peer sends nothing more",
 			kindOf(from), from.role, len(to.due), to.role, how, to.role, len(to.rd.Got), to.sc.Pending()))
+}
+
+// timeoutRecovery: the user of the connection arms a read deadline, the peer stays silent, the
+// blocked Read expires (nothing was read, no keystream consumed); the deadline is then cleared
+// (or first extended), the peer writes `msg`, and Read must deliver exactly those bytes: a timeout
+// that consumed nothing must not poison the connection. The model's state does not change on a
+// timeout, so the shadow simply sees `msg` arrive.
+func (c *scase) timeoutRecovery(e, peer *ep, msg []byte, extend bool, send func(from, to *ep, ws [][]byte)) {
+	if !e.real || e.rd == nil || e.rd.Err != nil || e.fatal != "" || peer.fatal != "" {
+		send(peer, e, [][]byte{msg})
+		return
+	}
+	before := len(e.rd.Got)
+	expire := func(stage string) bool {
+		e.sc.FeedErr(nil) // wake the blocked Read so that it notices the deadline
+		e.rd.PumpReturn(5 * time.Second)
+		err := e.rd.TakeErr()
+		var ne net.Error
+		if err == nil || !errors.As(err, &ne) || !ne.Timeout() {
+			c.violate("read-deadline-not-honoured", "impl-oracle",
+				fmt.Sprintf("real obfs2 %s: read deadline armed, peer silent (%s): Read returned err=%v instead of a timeout", e.role, stage, err))
+			return false
+		}
+		return true
+	}
+	e.conn.SetReadDeadline(time.Now().Add(5 * time.Second))
+	if !expire("first expiry") {
+		return
+	}
+	if len(e.rd.Got) != before {
+		c.violate("timeout-delivers-bytes", "impl-oracle", "a Read that timed out with nothing on the wire returned bytes")
+	}
+	r.Count("timeout-recovery", fmt.Sprintf("extend=%v", extend))
+	if extend {
+		e.conn.SetReadDeadline(time.Now().Add(time.Hour))
+	} else {
+		e.conn.SetReadDeadline(time.Time{})
+	}
+	send(peer, e, [][]byte{msg})
+	got := e.rd.Got[before:]
+	err := e.rd.TakeErr()
+	if extend {
+		// after delivering, the next blocked Read runs into the (virtual) extended deadline: expected
+		e.conn.SetReadDeadline(time.Time{})
+	}
+	if !bytes.HasSuffix(e.rd.Got, msg) {
+		c.violate("read-timeout-not-recoverable", "impl-oracle",
+			fmt.Sprintf("real obfs2 %s: a Read timed out while the peer was silent (nothing read), the deadline was %s, then the peer wrote %d bytes: Read delivered %d bytes, err=%v — the harmless timeout poisoned the connection",
+				e.role, map[bool]string{true: "extended", false: "cleared"}[extend], len(msg), len(got), err))
+	}
 }
 
 func (e *ep) close() {
@@ -532,8 +587,28 @@ func runCase(c *scase) {
 		lastFirst, wFirst = wFirst[len(wFirst)-1], wFirst[:len(wFirst)-1]
 		lastSecond, wSecond = wSecond[len(wSecond)-1], wSecond[:len(wSecond)-1]
 	}
+	extra := map[*ep][]byte{}
+	sendX := func(from, to *ep, ws [][]byte) {
+		for _, w := range ws {
+			extra[from] = append(extra[from], w...)
+		}
+		send(from, to, ws, nil)
+	}
+	recover2 := c.Timeouts && c.End == ""
+	x := vlib.NewRng(c.TapeSeed ^ 0x7117)
 	send(first, second, wFirst, dataToSecond)
+	if recover2 {
+		c.timeoutRecovery(second, first, x.Bytes(1+x.Intn(300)), x.Intn(2) == 0, sendX)
+	}
 	send(second, first, wSecond, dataToFirst)
+	if recover2 {
+		c.timeoutRecovery(first, second, x.Bytes(1+x.Intn(300)), x.Intn(2) == 0, sendX)
+		// ordinary traffic goes on in both directions, then once more a timeout on each side
+		sendX(first, second, [][]byte{x.Bytes(1 + x.Intn(2000))})
+		sendX(second, first, [][]byte{x.Bytes(1 + x.Intn(2000))})
+		c.timeoutRecovery(second, first, x.Bytes(1+x.Intn(50)), x.Intn(2) == 0, sendX)
+		c.timeoutRecovery(first, second, x.Bytes(1+x.Intn(50)), x.Intn(2) == 0, sendX)
+	}
 	if lastFirst != nil {
 		// both sides write once more, then each input ends: the last bytes arrive with the error
 		w1 := c.write(first, lastFirst)
@@ -581,8 +656,8 @@ func runCase(c *scase) {
 				fmt.Sprintf("real %s wrote %d bytes, the reference peer (%s) decrypts %d bytes, first difference at %d", from.role, len(want), to.role, len(to.got), firstDiff(to.got, want)))
 		}
 	}
-	check(R, I, catI)
-	check(I, R, catR)
+	check(R, I, append(catI, extra[I]...))
+	check(I, R, append(catR, extra[R]...))
 	nontrivial = len(catI) > 0 && len(catR) > 0 && (len(c.ToI)+len(c.ToR)+len(c.DataToI)+len(c.DataToR) > 0)
 	r.Count("data-i", obfskit.SizeClass(len(catI)))
 	r.Count("data-r", obfskit.SizeClass(len(catR)))
@@ -943,6 +1018,7 @@ func genSession(g *vlib.Rng, i int, chunker string, iReal, rReal bool) *scase {
 		}
 		c.TailR, c.TailI = tail(c.WritesI), tail(c.WritesR)
 	}
+	c.Timeouts = i%3 == 2
 	return c
 }
 
